@@ -13,7 +13,9 @@ def obligations(ctx, cfg):
             StepPost(ctx, 2, 2, 2, 'lease', 'C03.c-post'),
             StepAck(ctx, no, 2, k, 'lease', 'C03.c-ack'),
             StepModify(ctx, no, 2, k, 'lease', 'C03.c-modify'),
-            StepExpire(ctx, no, 2, 0, 'lease', 'C03.c-expire')]
+            StepExpire(ctx, no, 2, 0, 'lease', 'C03.c-expire'),
+            # the lease of a delivery whose consumer went away before the answer: still exactly one place per message
+            ReceiveDropped(ctx, 'PullMessages', id_='C03.d-pull-consumer-gone')]
 
 
 def kani_harnesses(cfg):
